@@ -1534,3 +1534,171 @@ func ruleSibIntegrity(c *Ctx, r *R) {
 		r.check(!d2 && !d3, "Object.freeze:configureOff-independent", site, "clearing [[Configurable]] does not depend on the property being a writable data property", "§15.2.3.9 step 2.b: Object.freeze clears [[Configurable]] only for writable / data properties: accessors and read-only properties stay configurable")
 	}
 }
+
+// ---- CONV-lossy --------------------------------------------------------------------------------------------------------
+
+func init() {
+	register(&Rule{ID: "CONV-lossy", Props: []string{"C15", "C16"}, Min: 5,
+		Doc: "G: census of integer conversions in package otto that can wrap: a conversion from an unsigned 64-bit-wide type (uint64, uint, uintptr) to a signed type (values >= 2^63 become negative). Each must be dominated by a test that bounds the operand (a comparison of that operand with a constant or with math.MaxInt64), or be in the reviewed table. A Go uint64 handed to a script keeps its value only if no such conversion stands between the host value and the number the script sees",
+		Run: ruleConvLossy})
+}
+
+var convLossyReviewed = map[string]string{
+	"sortCompare:uint->int64":   "an index below the receiver's length, which was obtained with ToUint32 (< 2^32)",
+	"arraySortSwap:uint->int64": "an index below the receiver's length, which was obtained with ToUint32 (< 2^32)",
+}
+
+func ruleConvLossy(c *Ctx, r *R) {
+	n := 0
+	for _, fn := range c.AllSrcFuncs("") {
+		ord := map[string]int{}
+		for _, b := range fn.Blocks {
+			for _, ins := range b.Instrs {
+				cv, ok := ins.(*ssa.Convert)
+				if !ok {
+					continue
+				}
+				from, ok1 := cv.X.Type().Underlying().(*types.Basic)
+				to, ok2 := cv.Type().Underlying().(*types.Basic)
+				if !ok1 || !ok2 {
+					continue
+				}
+				wideUnsigned := from.Kind() == types.Uint64 || from.Kind() == types.Uint || from.Kind() == types.Uintptr
+				signed := to.Info()&types.IsInteger != 0 && to.Info()&types.IsUnsigned == 0
+				if !wideUnsigned || !signed {
+					continue
+				}
+				if _, isConst := cv.X.(*ssa.Const); isConst {
+					continue
+				}
+				n++
+				base := fmt.Sprintf("%s:%s->%s", ssaFuncName(fn), from.Name(), to.Name())
+				ord[base]++
+				key := fmt.Sprintf("%s#%d", base, ord[base])
+				site := c.Pos(instrPos(cv))
+				// bounded: the operand (or the value it was loaded/converted from) is compared with something in a dominating block,
+				// or it comes from a builtin/stdlib call whose result is small (len, cap, NumField ...)
+				if boundedOperand(fn, cv) {
+					r.ok(key, site, "operand is bounded by a dominating comparison or is a length/count")
+					continue
+				}
+				if why, ok := convLossyReviewed[base]; ok {
+					r.ok("reviewed:"+key, site, why)
+					continue
+				}
+				r.bad(key, site, fmt.Sprintf("%s converts a %s to %s without a dominating range test: values >= 2^63 wrap to negative numbers, so a host uint64 reaches the script (or comes back) as a different value", ssaFuncName(fn), from.Name(), to.Name()))
+			}
+		}
+	}
+	r.note("conversions_examined", n)
+	r.ok("census", "-", fmt.Sprintf("%d unsigned-64 to signed conversions examined", n))
+}
+
+func boundedOperand(fn *ssa.Function, cv *ssa.Convert) bool {
+	x := cv.X
+	// lengths and counts
+	if call, ok := x.(*ssa.Call); ok {
+		if bi, ok := call.Call.Value.(*ssa.Builtin); ok && (bi.Name() == "len" || bi.Name() == "cap") {
+			return true
+		}
+	}
+	for _, b := range fn.Blocks {
+		iff, ok := b.Instrs[len(b.Instrs)-1].(*ssa.If)
+		if !ok || !b.Dominates(cv.Block()) || b == cv.Block() {
+			continue
+		}
+		for _, cmp := range comparisonsOf(iff.Cond, 0) {
+			if cmp.Op == token.EQL || cmp.Op == token.NEQ {
+				continue
+			}
+			for _, side := range []ssa.Value{cmp.X, cmp.Y} {
+				if sameSSA(side, x, 0) {
+					return true
+				}
+			}
+		}
+	}
+	return false
+}
+
+// ---- SHAPE-payload -----------------------------------------------------------------------------------------------------
+
+func init() {
+	register(&Rule{ID: "SHAPE-payload", Props: []string{"C14", "C02"}, Min: 5,
+		Doc: "T (sibling agreement, ES5 §15.5.4, §15.6.4, §15.7.4, §15.9.5, §15.10.6: 'the X prototype object is itself an X object'): the Go type of the internal value stored in the literal of Boolean.prototype, Number.prototype, String.prototype, Date.prototype and RegExp.prototype is one of the types the constructor `new X` stores into object.value (found by following static calls from the bound construct function). Every reader of that class's payload (valueOf, toString, JSON.stringify, the date and regexp accessors) is written against the constructor's type: a prototype holding anything else answers undefined or fails a type assertion in the host when the prototype itself is the receiver",
+		Run: ruleShapePayload})
+}
+
+func ruleShapePayload(c *Ctx, r *R) {
+	s := c.Shape()
+	ifaces := map[string]types.Type{}
+	var storesOf func(fn *ssa.Function, depth int, seen map[*ssa.Function]bool, out map[string]bool)
+	storesOf = func(fn *ssa.Function, depth int, seen map[*ssa.Function]bool, out map[string]bool) {
+		if fn == nil || fn.Blocks == nil || seen[fn] || depth > 5 {
+			return
+		}
+		seen[fn] = true
+		for _, b := range fn.Blocks {
+			for _, ins := range b.Instrs {
+				switch x := ins.(type) {
+				case *ssa.Store:
+					if isFieldAddr(x.Addr, "object", "value") {
+						if mi, ok := x.Val.(*ssa.MakeInterface); ok {
+							out[typeStr(mi.X.Type())] = true
+						}
+						if ci, ok := x.Val.(*ssa.ChangeInterface); ok {
+							// a value already held in a narrower interface (stringObjecter): any implementation qualifies
+							out["implements "+typeStr(ci.X.Type())] = true
+							ifaces[typeStr(ci.X.Type())] = ci.X.Type()
+						}
+					}
+				case *ssa.Call:
+					if callee := x.Call.StaticCallee(); callee != nil && callee.Pkg != nil && callee.Pkg.Pkg.Path() == ottoPath {
+						storesOf(callee, depth+1, seen, out)
+					}
+				}
+			}
+		}
+	}
+	for _, cls := range []string{"Boolean", "Number", "String", "Date", "RegExp"} {
+		ctor := s.ByPath[cls]
+		proto := s.ByPath[cls+".prototype"]
+		if ctor == nil || ctor.Native == nil || proto == nil {
+			r.undecided("unresolved:"+cls, "-", "UNRESOLVED: "+cls+" / "+cls+".prototype not found in the built-in table")
+			continue
+		}
+		sf, ok := ctor.Native.Construct.(SFunc)
+		if !ok {
+			r.undecided("unresolved:new "+cls, "-", "UNRESOLVED: "+cls+" has no construct function")
+			continue
+		}
+		want := map[string]bool{}
+		storesOf(c.SSAFunc(sf.Fn), 0, map[*ssa.Function]bool{}, want)
+		if len(want) == 0 {
+			r.undecided("unresolved:payload of new "+cls, "-", "UNRESOLVED: no store into object.value is reachable from the construct function of "+cls)
+			continue
+		}
+		e := proto.Fields["value"]
+		key := cls + ".prototype"
+		if e == nil {
+			r.bad(key, c.Pos(proto.Pos), fmt.Sprintf("%s.prototype has no internal value; `new %s` stores %v", cls, cls, sortedKeys(want)))
+			continue
+		}
+		got := "?"
+		okType := false
+		if info := c.InfoFor(e); info != nil {
+			if t := info.TypeOf(e); t != nil {
+				got = typeStr(t)
+				okType = want[got]
+				for name, it := range ifaces {
+					if want["implements "+name] {
+						if iface, isI := it.Underlying().(*types.Interface); isI && types.Implements(t, iface) {
+							okType = true
+						}
+					}
+				}
+			}
+		}
+		r.check(okType, key, c.Pos(e.Pos()), "internal value of type "+got+", as stored by new "+cls, fmt.Sprintf("%s.prototype holds an internal value of Go type %s, but `new %s` stores %v: the readers of the class's payload (valueOf, toString, JSON.stringify ...) are written against the constructor's type, so with the prototype itself as receiver they answer undefined or fail a type assertion in the host", cls, got, cls, sortedKeys(want)))
+	}
+}
